@@ -713,7 +713,7 @@ impl World {
         {
             let (cls, extra) = match &res {
                 Ok(None) => ("none", json!({})),
-                Ok(Some(a)) => ("ok", json!({"id": a.iter().next().map(|x| x.to_string())})),
+                Ok(Some(a)) => ("ok", json!({"id": a.iter().next().map(|x| x.to_string()), "info": info})),
                 Err(_) => ("err", json!({})),
             };
             self.emit("commit", r, cls, extra);
@@ -1322,7 +1322,7 @@ impl World {
             {
                 let (cls, extra) = match &res {
                     Ok(Ok(None)) => ("none", json!({})),
-                    Ok(Ok(Some(a))) => ("ok", json!({"id": a.iter().next().map(|x| x.to_string())})),
+                    Ok(Ok(Some(a))) => ("ok", json!({"id": a.iter().next().map(|x| x.to_string()), "info": info.clone().map(Value::from)})),
                     _ => ("err", json!({})),
                 };
                 self.emit("commit", r, cls, extra);
@@ -1356,7 +1356,7 @@ impl World {
             {
                 let (cls, extra) = match &rc {
                     Ok(None) => ("none", json!({})),
-                    Ok(Some(a)) => ("ok", json!({"id": a.iter().next().map(|x| x.to_string())})),
+                    Ok(Some(a)) => ("ok", json!({"id": a.iter().next().map(|x| x.to_string()), "info": info.clone().map(Value::from)})),
                     Err(_) => ("err", json!({})),
                 };
                 self.emit("commit", r, cls, extra);
